@@ -1,15 +1,16 @@
 (* C14: hostile or damaged input makes the decoder return, never crash or run away.
    The decoder model (Model/Decoder.v) is a total function on ALL byte strings, type
    environments and type maps: recursion is on fuel, fuel is linear in the input
-   (decode_fuel bs = 4 * length bs + 16), every index or count read from the input is compared
+   (decode_fuel bs = 8 * length bs + 16), every index or count read from the input is compared
    with what is there before it is used, and reflect panics are errors (recovered at ReadObject
    in the code: Props/C14facts.v).  Proved for every input: a successful read consumed a
    non-empty prefix and returns exactly the rest (no work without consuming input).
-   PARTIAL: that the fuel is never exhausted (i.e. that the recursion depth is bounded by
-   4n+16) is validated by the correspondence run over hostile inputs, not proved; seconds and
-   bytes of the real runtime are measured by the harness as a proxy. *)
+   Proved for every input (Proofs/DecoderTotal.v): the fuel is never exhausted - the recursion
+   depth of the readers is at most 8n+6 on an input of n bytes - so the model returns a value or
+   an error on every byte string whatsoever.  Seconds and bytes of the REAL runtime are measured
+   by the harness (partial: the Go runtime is not modelled). *)
 From Coq Require Import ZArith List.
-From GH Require Import Base.Result Spec.Grammar Model.Encoder Model.Decoder Proofs.DecoderFacts.
+From GH Require Import Base.Result Spec.Grammar Model.Encoder Model.Decoder Proofs.DecoderFacts Proofs.DecoderTotal.
 Import ListNotations.
 
 Theorem C14_decode_consumes_prefix : forall te tm bs v rest st,
@@ -17,13 +18,21 @@ Theorem C14_decode_consumes_prefix : forall te tm bs v rest st,
 Proof. exact decode_consumes_prefix. Qed.
 Print Assumptions C14_decode_consumes_prefix.
 
+(* no input makes the model run out of fuel: decoding is total, with work linear in the input *)
+Theorem C14_decode_never_out_of_fuel : forall te tm bs, decode te tm bs <> Fuel.
+Proof. exact decode_never_out_of_fuel. Qed.
+Print Assumptions C14_decode_never_out_of_fuel.
+(* the bound behind it: a reader called with fuel above 8 * (bytes left) + its level never runs out *)
+Theorem C14_readers_never_out_of_fuel : forall te tm f, readers_nf (readers_at te tm f) f.
+Proof. exact readers_at_nf. Qed.
+
 (* the invariant behind it, for every reader at every fuel *)
 Theorem C14_every_reader_consumes_prefix : forall te tm fuel, readers_ok (readers_at te tm fuel).
 Proof. exact readers_at_ok. Qed.
 Print Assumptions C14_every_reader_consumes_prefix.
 
 (* work is bounded by the size of the input: the fuel a decode may spend is linear in it *)
-Theorem C14_fuel_linear : forall bs, decode_fuel bs = (4 * length bs + 16)%nat.
+Theorem C14_fuel_linear : forall bs, decode_fuel bs = (8 * length bs + 16)%nat.
 Proof. reflexivity. Qed.
 
 Example C14_nonvacuous :
